@@ -717,6 +717,9 @@ func (e *emitter) expr(minPrec, depth int, stmtStart bool) {
 		e.tok(e.templateLit(), "tpl")
 	case 5:
 		e.expr(bop.prec, depth+1, stmtStart)
+		if ch.Bool(1, 3) {
+			e.nl() // a line break or a trailing comment may also precede a binary operator: the expression continues
+		}
 		e.tok(bop.op, "bin.op")
 		e.nl()
 		e.expr(bop.prec+1, depth+1, false)
